@@ -62,7 +62,7 @@ PROPS = {
     },
     'C01': {
         'level': 'proof',
-        'coq': ['Properties/C01.v', 'Properties/C01_layout.v', 'Properties/C01_reorder.v'],
+        'coq': ['Properties/C01.v', 'Properties/C01_layout.v', 'Properties/C01_reorder.v', 'Properties/C01_serialize.v'],
         'coq_gen': ['Properties/C07_gen.v'],
         'rule': ("random cell DAGs (1..120 cells quick, sizes crossing 255/256, chains of depth 1023/1024, wide fans, heavy "
                  "sharing, all bit lengths, valid exotic cells) serialised with the 8 option combinations: the bytes of "
@@ -80,12 +80,21 @@ PROPS = {
                         "(a permutation of the imported cells), remap every reference exactly once to a strictly smaller new "
                         "index (so the emitted order has references strictly forward: the premise of parse_layout) and return "
                         "the roots' new indices; importRoots/importCell establish the precondition (reorder_valid, "
-                        "import_roots_valid).  That the emitted bytes are the layout of the reordered cells is still "
-                        "validated per output by the certificate evaluated with the extracted proved parser."),
+                        "import_roots_valid).  coq/Properties/C01_serialize.v: for every array, hash list, root list and all 8 option "
+                        "combinations the bytes returned by the serialiser model are exactly layout(v, cells, roots') where v is the "
+                        "generic variant determined by the options with minimal size/off_bytes, no stored hashes and the index as "
+                        "written, cells are the imported cells in reverse allocation order with references remapped to emitted "
+                        "positions, and the layout satisfies layout_ok (serialize_is_layout); hence parse(serialize) returns these "
+                        "cells and, when equal hashes mean equal trees on the reachable cells, every parsed root unfolds to the same "
+                        "tree as the input root (boc_roundtrip_model, boc_roundtrip_total) and the number of stored cells equals the "
+                        "number of distinct reachable hashes (stored_once); the model's only errors are the depth limit, the output "
+                        "capacity (characterised exactly) or a hasher error, and it succeeds with 1..8 roots and depth <= 1024.  The "
+                        "per-output certificate remains only as a redundant run-time cross-check."),
         'assumptions': ["fewer than 2^24 cells (WriteInt(refByteSize,3) writes 0 for 4)",
                         "de-duplication is by SHA-256 hash: 'stored once' assumes no collision among the sub-cells",
-                        "the reordering (each cell once, references forward, roots remapped) is proved for all inputs; that the byte "
-                        "emission (serializeBoc) writes exactly the layout of the reordered cells is validated per output by a certificate"],
+                        "input cells have a 3-bit level mask and a type byte consistent with their data (exotic: >= 8 data bits, type = first data byte != 0); the serialiser does not write the type separately",
+                        "fewer than 256 roots (the root count is written in `size` bytes unchecked; public entry points pass one root); success theorem: 1..8 roots",
+                        "'structurally identical' and 'stored once' assume SHA-256 is collision-free and a function of the structure on the cells reachable from the roots (explicit hypotheses collision_free / hash_functional)"],
     },
     'C18': {
         'level': 'proof',
